@@ -13,7 +13,8 @@ from ..core import clist
 from . import _wpa
 
 ID = "C01"
-THEOREMS = ["C01_move_sound", "C01_move_complete", "C01_legal_step_functional", "C01_move_iff", "C01_move_total"]
+THEOREMS = ["C01_move_sound", "C01_move_complete", "C01_legal_step_functional", "C01_move_iff", "C01_move_total",
+            "C01_source_move_iff", "C01_source_move_total", "C01_source_move_never_crashes", "C01_source_is_model"]
 MODEL_TARGETS = ["model/Tak.vo", "model/Harness.vo", "model/Lit.vo"]
 TRUSTED_BASE = [
     "CPython list / slice / negative-index semantics as used by Position.move (validated by the correspondence, "
@@ -335,3 +336,27 @@ def replay(run, rp):
             "model": cs.model_view(cs.terms[0]) if failing else "agrees with the implementation",
             "rules_oracle_accepts": exp is not None,
             "impl_agrees_with_rules_oracle": kind != "crash" and (_wpa.canon_pos(q) if kind == "ok" else None) == exp}
+
+
+def pregen(run):
+    """regenerate gen/GameGen.v (the shallow embedding of game.py/moves.py/pieces.py) from the tree under test"""
+    from . import c01gen
+    return c01gen.pregen(run)
+
+
+# ---- translator tie (T): the source-level theorems of props/C01.v quantify over gen/GameGen.v; what is trusted
+# instead of sampling is model/PySem.v (Python's indexing / slicing / exception semantics) and the translation
+# scheme - both are validated on every run by harness/props/t01.py, whose correspondence runs here too.
+from . import t01 as _t01  # noqa: E402
+
+MODEL_TARGETS = sorted(set(list(MODEL_TARGETS) + list(_t01.MODEL_TARGETS)))
+TRUSTED_BASE = list(TRUSTED_BASE) + [
+    "translator harness/py2coq.py (statement-to-Gallina scheme) and model/PySem.v (py_getitem / py_slice / py_setitem / "
+    "exceptions), validated against CPython and against the implementation on every run",
+]
+_c01_correspondence = correspondence
+
+
+def correspondence(run):
+    _c01_correspondence(run)
+    _t01.correspondence(run)
